@@ -1,3 +1,65 @@
-From PV Require Import Model.RankCrowd.
-Theorem placeholder : True. Proof. exact I. Qed.
-Print Assumptions placeholder.
+(* C04  Truncation respects dominance ranks and prefers feasible solutions.  Statements only.
+   A validated answer of the non-dominated sorting (is_ndsb) is by definition the sequence of dominance layers:
+   front k = the members, among those not in fronts < k, that no remaining member Pareto-dominates
+   (pdomb = Pareto domination, Proofs/DominanceP.pdomb_spec), returned until the quota is reached. *)
+From Coq Require Import List Bool Arith.
+From PV Require Import Base.Num Base.Res Base.ListX Model.Dominance Model.RankCrowd Proofs.DominanceP Proofs.RankCrowdP.
+Import ListNotations.
+
+(* the boolean domination test of the front checker is Pareto domination as stated independently *)
+Theorem C04_pdomb_is_pareto :
+  forall (N : num) (ok : N -> Prop), ord_laws N ok ->
+  forall a b, length a = length b -> Forall ok a -> Forall ok b -> (pdomb a b = true <-> pdom a b).
+Proof. intros N ok L. exact (pdomb_spec L). Qed.
+Print Assumptions C04_pdomb_is_pareto.
+
+(* survivors are: all fronts before the last returned one, plus a duplicate-free part of the last one *)
+Theorem C04_structure :
+  forall (N : num) constr (pop : list (mind N)) n s surv attrs s',
+    rnc_survival constr pop n s = Ok ((surv, attrs), s') -> pop <> [] -> 1 <= n ->
+    rnc_wrapped constr pop (Nat.min n (length pop)) surv.
+Proof. intros N constr pop n s surv attrs s' H Hne Hn. exact (proj1 (rnc_survival_spec constr pop n s surv attrs s' H Hne Hn)). Qed.
+Print Assumptions C04_structure.
+
+(* no discarded individual dominates a survivor (F = objectives of the feasible sub-population, or of everybody
+   on unconstrained problems) *)
+Theorem C04_no_discarded_dominates_survivor :
+  forall (N : num) (F : list (list N)) n fronts surv s d,
+    rnc_result F n fronts surv -> In s surv -> d < length F ->
+    pdomb (nth d F []) (nth s F []) = true -> In d surv.
+Proof. exact @no_discarded_dominates. Qed.
+Print Assumptions C04_no_discarded_dominates_survivor.
+
+(* a discarded, ranked individual lies in the last returned front; every survivor is in that front or an earlier one *)
+Theorem C04_rank_respected :
+  forall (N : num) (F : list (list N)) n fronts surv s d pre fr post,
+    rnc_result F n fronts surv -> In s surv -> ~ In d surv -> fronts = pre ++ fr :: post -> In d fr ->
+    post = [] /\ (In s (concat pre) \/ In s fr).
+Proof. exact @rank_respected. Qed.
+Print Assumptions C04_rank_respected.
+
+(* a non-dominated individual is dropped only when the non-dominated ones alone exceed the quota *)
+Theorem C04_front0_dropped_only_if_too_big :
+  forall (N : num) (F : list (list N)) n fronts surv f0 rest d,
+    rnc_result F n fronts surv -> length surv = n -> fronts = f0 :: rest -> In d f0 -> ~ In d surv ->
+    rest = [] /\ n < length f0.
+Proof. exact @front0_dropped_only_if_too_big. Qed.
+Print Assumptions C04_front0_dropped_only_if_too_big.
+
+(* feasible individuals are preferred: an infeasible survivor implies that every feasible individual survives *)
+Theorem C04_feasible_first :
+  forall (N : num) (pop : list (mind N)) ns surv i j,
+    rnc_wrapped true pop ns surv -> In i surv -> pop_infeas pop i = true ->
+    j < length pop -> pop_feas pop j = true -> In j surv.
+Proof. exact @feasible_first. Qed.
+Print Assumptions C04_feasible_first.
+
+(* infeasible individuals are kept in order of increasing total violation *)
+Theorem C04_infeasible_by_cv :
+  forall (N : num) (ok : N -> Prop), ord_laws N ok ->
+  forall (pop : list (mind N)) feas infeas m i j,
+    split_spec pop feas infeas -> Forall (fun p => ok (m_cv p)) pop ->
+    In i (firstn m infeas) -> In j (skipn m infeas) ->
+    exists pi pj, nth_error pop i = Some pi /\ nth_error pop j = Some pj /\ leb N (m_cv pi) (m_cv pj) = true.
+Proof. intros N ok L. exact (infeasible_by_cv L). Qed.
+Print Assumptions C04_infeasible_by_cv.
